@@ -20,6 +20,11 @@ pub fn strip_fragment(mut url: crux_http::http::Url) -> crux_http::http::Url {
     url
 }
 
+/// control for C14 R14.i: choosing a media type by sniffing the content (must be matched by the who-may-call rule)
+pub fn sniff_media_type(bytes: &[u8]) -> Option<crux_http::http::Mime> {
+    crux_http::http::Mime::sniff(bytes).ok()
+}
+
 /// control for C17 R17.e: constructing a KeyValueError in the core (errors must come from the shell)
 pub fn fabricate_kv_error() -> crux_kv::error::KeyValueError {
     crux_kv::error::KeyValueError::Other { message: "made up".to_string() }
